@@ -10,7 +10,7 @@ import calendar
 from harness import core, clsrun, clsops, canon, gen_tls
 from harness.core import hx
 
-LEAN_MODULES = ['CpProps.C06']
+LEAN_MODULES = ['CpProps.C06', 'CpProps.C06Ssl2']
 RULE = ('generated TLS objects (records, alerts, CCS, all handshake messages of the library, every extension class the '
         'generators build incl. SNI/ALPN/key_share/status_request/token_binding, SSL 2.0 records) are composed by the '
         'library and by an independent RFC-level encoder and the bytes compared; the reference encoding is then parsed '
